@@ -72,7 +72,11 @@ class Snap:
         return self.is_prefix_of(other) and len(other) == self.n
 
 
-def install_spy(log, kill_after=None):
+class Interrupted(BaseException):
+    """raised from a wrapped write to stop a run between two writes (in-process stand-in for Ctrl-C / a failing input)"""
+
+
+def install_spy(log, kill_after=None, raise_after=None):
     """wrap FileWriter.write/cwrite: after every call record (path, size, bytes on disk)"""
     from sigpyproc.io.fileio import FileWriter
 
@@ -86,6 +90,8 @@ def install_spy(log, kill_after=None):
         count[0] += 1
         if kill_after is not None and count[0] == kill_after:
             os.kill(os.getpid(), signal.SIGKILL)
+        if raise_after is not None and count[0] == raise_after:
+            raise Interrupted()
 
     def write(self, bo):
         r = orig_w(self, bo)
@@ -112,7 +118,7 @@ class C20(Prop):
     assumptions = ["OS-level durability/atomicity of write(2) is outside the model (exercised by the SIGKILL runs only)",
                    "a truncated file is read with read_block (read_plan to the end of a stream with a partial trailing "
                    "sample raises ValueError by design)"]
-    regimes_expected = list(WRITERS) + ["sigkill", "short-write", "above-1MiB", "over-older-longer-file"]
+    regimes_expected = list(WRITERS) + ["sigkill", "short-write", "exception", "above-1MiB", "over-older-longer-file"]
     budget_s = (240, 1500)
 
     def _case(self, rng, writer=None):
@@ -146,6 +152,13 @@ class C20(Prop):
         for _ in range(4 if tier == "quick" else 30):
             c = self._case(rng, rng.choice(("invert", "downsample", "subband", "samps", "zerodm")))
             c["kill"] = rng.randint(1, 4)
+            cases.append(c)
+        # the run dies by an exception (Ctrl-C, a failing input) between two writes: writers that clean up must not take
+        # the valid prefix away
+        for wname in ("bands", "chans", "invert", "samps", "subband", "tim", "block", "downsample"):
+            c = self._case(rng, wname)
+            c["raise"] = rng.randint(2, 4)
+            c.pop("preexist", None)
             cases.append(c)
         # the device refuses part of a block (file-size limit / full disk): what is left on disk is still header +
         # a prefix of the result
@@ -186,6 +199,8 @@ class C20(Prop):
             return self._observe_kill(case, d, p)
         if "limit" in case:
             return self._observe_limit(case, d, p)
+        if "raise" in case:
+            return self._observe_raise(case, d, p)
         if case.get("preexist"):
             # the output paths already hold an OLDER, LONGER product (a re-run with a shorter selection): learn the
             # paths with a dry run, then overwrite each with a longer file of foreign bytes
@@ -313,6 +328,39 @@ class C20(Prop):
                 "matches_snapshot": surv is not None and k <= len(snaps) and snaps[k - 1].equals(surv),
                 "nsnaps": len(snaps), "trunc": [] if surv is None else self._truncations(str(surv_path), surv)}
 
+    def _observe_raise(self, case, d, p):
+        """the run is stopped by an exception right after the k-th write (in-process): whatever the writer's cleanup
+        does, every output file that had been started must still be there and be a readable prefix"""
+        from sigpyproc.readers import FilReader
+        d2 = common.tmpdir()
+        fil = FilReader(str(p))
+        ref_outs = run_writer(fil, case, d2)
+        fil._file.close()
+        refs = {os.path.basename(o): open(o, "rb").read() for o in ref_outs}
+        log = []
+        undo = install_spy(log, raise_after=case["raise"])
+        stopped = False
+        try:
+            fil = FilReader(str(p))
+            run_writer(fil, case, d)
+        except Interrupted:
+            stopped = True
+        finally:
+            undo()
+            fil._file.close()
+        import gc
+        gc.collect()
+        started = sorted({os.path.basename(pp) for pp, _ in log})
+        files = []
+        for name in started:
+            path = d / name
+            surv = path.read_bytes() if path.exists() else None
+            ref = refs.get(name, b"")
+            files.append({"name": name, "exists": surv is not None, "len": None if surv is None else len(surv),
+                          "is_prefix": surv is not None and ref[:len(surv)] == surv,
+                          "trunc": [] if surv is None else self._truncations(str(path), surv)})
+        return {"stopped": stopped, "files": files, "nwrites": len(log)}
+
     def _observe_limit(self, case, d, p):
         """child: run the writer under a file-size limit that cuts one of its data writes short (SIGXFSZ ignored, so
         the write call itself reports the shortfall); parent: did the call return normally, and what is on disk"""
@@ -353,6 +401,18 @@ class C20(Prop):
         w = case["writer"]
         if "err" in obs:
             return f"{w} raised {obs['err']}: {obs['msg'][-150:]}"
+        if "raise" in case:
+            if not obs["stopped"]:
+                return None          # fewer writes than the stopping point
+            for f in obs["files"]:
+                if not f["exists"]:
+                    return (f"{w}: stopped by an exception after write #{case['raise']}: the output {f['name']} that had been "
+                            f"started no longer exists (no valid prefix survives)")
+                if not f["is_prefix"]:
+                    return f"{w}: stopped by an exception after write #{case['raise']}: {f['name']} is not a prefix of the full result"
+                if f["trunc"]:
+                    return f"{w}: file left after an exception is not readable as a prefix: {f['trunc'][0]}"
+            return None
         if "limit" in case:
             if obs["rc"] not in (0, 7):
                 return f"{w}: child under a file-size limit ended with rc {obs['rc']}: {obs['stderr']}"
@@ -395,7 +455,7 @@ class C20(Prop):
 
     # ------------------------------------------------------------------
     def model_requests(self, case, obs):
-        if "err" in obs or "kill" in case or "limit" in case:
+        if "err" in obs or "kill" in case or "limit" in case or "raise" in case:
             return []
         reqs = []
         for f in obs["files"]:
@@ -412,18 +472,18 @@ class C20(Prop):
     def regime(self, case, obs):
         if case.get("big"):
             return "above-1MiB"
-        tags = ["sigkill" if "kill" in case else "short-write" if "limit" in case else case["writer"]]
+        tags = ["sigkill" if "kill" in case else "short-write" if "limit" in case else "exception" if "raise" in case else case["writer"]]
         if case.get("preexist"):
             tags.append("over-older-longer-file")
         return tags
 
     def nontrivial(self, case, obs):
-        if "kill" in case or "limit" in case:
+        if "kill" in case or "limit" in case or "raise" in case:
             return True
         return any(len(f["snaps"]) >= 3 for f in obs.get("files", []))
 
     def key(self, case):
-        return str((case["writer"], case["nbits"], case["C"], case["N"], case["g"], case.get("kill"), case.get("limit")))
+        return str((case["writer"], case["nbits"], case["C"], case["N"], case["g"], case.get("kill"), case.get("limit"), case.get("raise")))
 
 
 PROP = C20()
